@@ -17,6 +17,18 @@
    - a connection vouches for at most one observed thin waist: the last
      counting report; it stops vouching when the connection is disconnected
      ("closes" = the swarm's Disconnected notification).
+   - the listen set is what listenAddrs() returns WHEN THE REPORT ARRIVES: it
+     may change during a history while connections stay open (op SetListen).
+     "Reports on connections not arriving at a listen address never count" is
+     judged for every report by the listen set current at that moment - also for
+     a connection that is already tracked: its re-report after its listener was
+     closed does not count and (being the connection's newest report) withdraws
+     the earlier one.  A change of the listen set by itself withdraws nothing:
+     the earlier report did arrive at a listen address.
+   - "the activation threshold" is the CURRENT value of the exported package
+     variable ActivationThresh at the moment of the query (op SetThresh changes
+     it after the manager exists): every answer is judged by the value in force
+     when it is given.
    - observers of (local thin waist l, observed thin waist x) = the distinct
      observer groups (IPv4 address, or IPv6 /56) of the connections currently
      vouching for x on l.
@@ -133,6 +145,10 @@ Definition mon_step (cfg : config) (m : mon) (o : op) (f : bool) : mon :=
   | ObservePair c oa ob => mon_observe cfg (mon_observe cfg m c oa) c ob   (* the LATEST report is the one that counts *)
   | ObserveDuring c oa d =>
       if f then mon_observe cfg (mon_disconnect m d) c oa else mon_observe cfg m c oa
+  | SetListen _ => m   (* a report counted when it arrived at what then was a listen
+                          address; the text does not make a later change of the listen
+                          set withdraw it.  Later reports are judged by the new set *)
+  | SetThresh _ => m
   end.
 
 (* observer groups of the connections vouching for x on l (with repetitions) *)
@@ -244,8 +260,9 @@ Fixpoint mon_run (cfg : config) (m : mon) (i : Z) (tr : list (op * obs)) : list 
   | [] => []
   | (o, ob) :: r =>
       let m' := mon_step cfg m o (o_fired ob) in
-      match mon_check cfg m' ob with
-      | [] => mon_run cfg m' (i + 1) r
+      let cfg' := env_step cfg o in   (* the listen set / threshold in force from now on *)
+      match mon_check cfg' m' ob with
+      | [] => mon_run cfg' m' (i + 1) r
       | d => ERR_PROPERTY :: i :: d
       end
   end.
@@ -270,8 +287,9 @@ Fixpoint conform_run (cfg : config) (st : state) (i : Z) (tr : list (op * obs)) 
   | [] => []
   | (o, ob) :: r =>
       let st' := step cfg st o in
-      let mo := observe cfg st' (fired cfg o) in
-      if obs_eqb mo ob then conform_run cfg st' (i + 1) r
+      let cfg' := env_step cfg o in
+      let mo := observe cfg' st' (fired cfg o) in
+      if obs_eqb mo ob then conform_run cfg' st' (i + 1) r
       else [ERR_MISMATCH; i; first_for_diff 0 (o_for mo) (o_for ob)]
   end.
 
@@ -282,8 +300,13 @@ Fixpoint conform_run (cfg : config) (st : state) (i : Z) (tr : list (op * obs)) 
                recorded so that a replay re-executes the same way)
    laddr := ltw rest            ltw = -1: the address has no thin-waist form;
                                 rest = id of the multiaddr after the thin waist
-   conn  := ltw lfam lproto rkind r0 r1 r2 r3 r4 r5 r6 r7
+   conn  := ltw lfam lproto dir rkind r0 r1 r2 r3 r4 r5 r6 r7
             local address: thin-waist id (-1 = none), family 4|6, 6 = tcp | 17 = udp
+            dir: what conn.Stat().Direction answers, 1 = inbound, 2 = outbound (a dial
+                 that leaves from the listen socket has a listen address as its local
+                 address).  The property does not mention the direction: the model
+                 and the monitor ignore it; it is recorded so that a replay
+                 re-executes the same connection
             remote IP: rkind 4: r0 = the IPv4 address as a number;
                        rkind 6: r0..r7 = the eight 16-bit groups; rkind 0: no IP
    step  := op observation
@@ -300,11 +323,15 @@ Fixpoint conform_run (cfg : config) (st : state) (i : Z) (tr : list (op * obs)) 
                           two reports of conn c, in this order; on the event-bus path the
                           first is held inside shouldRecordObservation (at listenAddrs())
                           until the second has been queued, then released
+          | 6 nL laddr{nL}                      from now on listenAddrs() returns these
+                          (connections stay open, the manager is not told)
+          | 7 n                                 ActivationThresh = n from now on
    observation := (k x_1..x_k){nQ}   AddrsFor(query_j) as observed thin-waist ids
                                       (-9 = an address the harness cannot attribute)
                   k (x rest){k}      Addrs(0)
-   ActivationThresh is set to [thresh] by the harness for the case; the cap is
-   the regenerated constant maxExternalThinWaistAddrsPerLocalAddr. *)
+   ActivationThresh is set to [thresh] by the harness BEFORE the manager is
+   constructed (and by op 7 afterwards; restored at the end of the case); the
+   cap is the regenerated constant maxExternalThinWaistAddrsPerLocalAddr. *)
 
 Definition laddr_of (a b : Z) : laddr := (if a <? 0 then None else Some a, b).
 
@@ -339,7 +366,7 @@ Fixpoint take_conns (n : nat) (l : list Z) : option (list conninfo * list Z) :=
   | O => Some ([], l)
   | S n' =>
     match l with
-    | lt :: lf :: lp :: rk :: r0 :: r1 :: r2 :: r3 :: r4 :: r5 :: r6 :: r7 :: r =>
+    | lt :: lf :: lp :: _dir :: rk :: r0 :: r1 :: r2 :: r3 :: r4 :: r5 :: r6 :: r7 :: r =>
         match take_conns n' r with
         | Some (cs, r') =>
             Some (mkConn (tw_of lt lf lp) (remote_of rk r0 r1 r2 r3 r4 r5 r6 r7) :: cs, r')
@@ -390,6 +417,12 @@ Definition take_op (l : list Z) : option (op * bool * list Z) :=
                           (mkObs (zbool lb2) (zbool n642) (zbool rl2) (tw_of ot2 ofam2 opr2)), false, r)
   | 4 :: c :: lb :: n64 :: rl :: ot :: ofam :: opr :: d :: f :: r =>
       Some (ObserveDuring c (mkObs (zbool lb) (zbool n64) (zbool rl) (tw_of ot ofam opr)) d, zbool f, r)
+  | 6 :: r =>
+      match take_counted_pairs r with
+      | Some (ls, r') => Some (SetListen (map (fun p : Z * Z => laddr_of (fst p) (snd p)) ls), false, r')
+      | None => None
+      end
+  | 7 :: n :: r => Some (SetThresh n, false, r)
   | _ => None
   end.
 
